@@ -1570,6 +1570,31 @@ def c16_random(run, Nmax=3, samples=40, n1=4800, n2=36000):
         b.fail('random_clifford_valid', 'random_clifford(2) returned an invalid table', {'gs': list(bad[0])})
     if len(counts) != 720 or chi > 719 + 8 * np.sqrt(2 * 719):
         b.fail('uniform_N2', 'random_clifford(2): %d of 720 symplectic classes seen, chi2 = %.1f (df 719)' % (len(counts), chi), {'classes': len(counts)})
+    # N = 3: marginal uniformity of the image of every generator over the 63 non-identity strings and of the images of
+    # (X_i, Z_i) over the 63*32 anticommuting pairs (a sampler that is only correct for N <= 2 is biased here)
+    n3 = max(6000, n1)
+    rows = [dict() for _ in range(6)]
+    pairs = [dict() for _ in range(3)]
+    for _ in range(n3):
+        gs = pu.random_clifford(3)
+        for k_ in range(6):
+            key = tuple(gs[k_].tolist())
+            rows[k_][key] = rows[k_].get(key, 0) + 1
+        for q_ in range(3):
+            key = tuple(gs[2 * q_].tolist()) + tuple(gs[2 * q_ + 1].tolist())
+            pairs[q_][key] = pairs[q_].get(key, 0) + 1
+    b.case(sample={'uniformity': 'N=3 marginals', 'samples': n3})
+    for k_ in range(6):
+        exp = n3 / 63.0
+        chi = sum((c - exp) ** 2 / exp for c in rows[k_].values()) + (63 - len(rows[k_])) * exp
+        if len(rows[k_]) != 63 or chi > 62 + 8 * np.sqrt(2 * 62):
+            b.fail('uniform_N3_row', 'random_clifford(3): image of generator %d: %d of 63 strings, chi2 = %.1f (df 62)' % (k_, len(rows[k_]), chi), {'row': k_})
+    for q_ in range(3):
+        ncls = 63 * 32
+        exp = n3 / float(ncls)
+        chi = sum((c - exp) ** 2 / exp for c in pairs[q_].values()) + (ncls - len(pairs[q_])) * exp
+        if chi > (ncls - 1) + 8 * np.sqrt(2 * (ncls - 1)):
+            b.fail('uniform_N3_pair', 'random_clifford(3): images of (X_%d, Z_%d): chi2 = %.1f (df %d)' % (q_, q_, chi, ncls - 1), {'qubit': q_})
     # fair sign bits / measurement coins
     ones = 0
     tot = 0
